@@ -8,7 +8,7 @@ from props._design import *  # noqa: F401,F403
 from props import _design as D
 
 ID = "C05"
-PROP_FILES = ["Properties/C05.v", "Properties/C05_rank.v"]
+PROP_FILES = ["Properties/C05.v", "Properties/C05_rank.v", "Properties/C05_rank_num.v"]
 THEOREMS = ["C05_group_block", "C05_onehot_kron", "C05_group_labels"]
 ASSUMPTIONS = ["fully crossed data for the rank part", "integer-valued numerics"]
 RULE = ("effect expressions (intercept, numeric, categorical, transforms, interactions, sums; with and without "
@@ -46,6 +46,18 @@ def gen(rng, tier):
                 fr = gen_dm.make_frame(rng, factorial=True, cats=["f", "g", "h"], nlev={"f": 2, "g": rng.choice([2, 3]), "h": 2})
                 cases.append({"formula": f"y ~ x + {a} + {b.format(e=e)}", "frame": fr, "na": "drop", "kind": "same-factor",
                               "effect": e, "group": "g:h"})
+    # several group-specific terms on DIFFERENT factors, in both orders: the coding of each effect is decided by
+    # the intercept of its own factor only, whatever was decided for the terms written before it
+    first = ["(x | g)", "(f | g)", "(1 + z | g)", "(center(x) | g)", "(1 | g) + (x | g)"]
+    second = ["(0 + f | h)", "(0 + C(k) | h)", "(0 + f:x | h)", "(0 + f | o)", "(f | h)"]
+    for _ in range(reps):
+        for a in first:
+            for b in second:
+                if "(f |" in a and "f" in b.split("|")[0]:
+                    continue
+                for pair in ((a, b), (b, a)):
+                    fr = gen_dm.make_frame(rng, factorial=True, cats=["f", "g", "h"], nlev={"f": 2, "g": rng.choice([2, 3]), "h": 2})
+                    cases.append({"formula": "y ~ x + " + " + ".join(pair), "frame": fr, "na": "drop", "kind": "two-factors"})
     n = 20000 if tier == "thorough" else 300
     for _ in range(n):
         fr = gen_dm.make_frame(rng)
@@ -113,6 +125,17 @@ def oracle(c):
                                      f"{c['formula']!r} effect columns of {name}")
         if err:
             return err
+        # the coding rule for a single categorical effect: complete indicators unless the SAME grouping factor
+        # also has an intercept term (whatever other factors have)
+        ename = name.split("|", 1)[0]
+        if ename in D.ATOMS and D.ATOMS[ename][0] == "cat" and len(t.expr.components) == 1:
+            nlev_e = len(D.levels_of(df, D.ATOMS[ename][1]))
+            has_icpt = any(n2.split("|", 1)[0] == "1" and set(t2.factor.name.split(":")) == set(t.factor.name.split(":"))
+                           for n2, t2 in d.group.terms.items())
+            want_p = nlev_e - 1 if has_icpt else nlev_e
+            if p != want_p:
+                return (f"{c['formula']!r} term {name}: {p} effect columns per group, the coding rule gives {want_p} "
+                        f"({nlev_e} levels, intercept of the same factor {'present' if has_icpt else 'absent'})")
         by_factor.setdefault(t.factor.name, []).append((name, Z, own, ng, rowcell))
     # rank: the columns of one grouping factor are independent and span group x effect-cell means
     if c.get("kind") in ("grid", "same-factor"):
